@@ -302,6 +302,11 @@ func genReq(rt *rapid.T, l string, faulty bool) Req {
 		r.Query = mutate(rt, l+".m", r.Query)
 	}
 	r.Result = genResult(rt, l+".res", faulty)
+	if (r.Kind == "search" || strings.HasPrefix(r.Kind, "tag")) && rapid.IntRange(0, 2).Draw(rt, l+".complex") == 0 {
+		// a complexity estimate above the threshold: the request is answered by the portion-wise processor, which
+		// delivers its traces in batches of another shape
+		r.Result.Complexity = int64(rapid.IntRange(2, 4).Draw(rt, l+".portions"))*10000000 - 1
+	}
 	if faulty && (r.Kind == "trace" || r.Kind == "trace_json" || r.Kind == "search") {
 		r.Result.TraceShape = rapid.SampledFrom([]int{0, 0, 1, 2, 3}).Draw(rt, l+".traceshape")
 	}
